@@ -88,7 +88,7 @@ const CONFIGS: &[Config] = &[
     Config { name: "default", prelude: "", default_ifs: true },
     Config { name: "IFS=''", prelude: "IFS=\n", default_ifs: false },
     Config { name: "IFS=:", prelude: "IFS=:\n", default_ifs: false },
-    Config { name: "IFS=-", prelude: "IFS=-\n", default_ifs: false },
+    Config { name: "IFS=,", prelude: "IFS=,\n", default_ifs: false },
     Config { name: "noglob", prelude: "set -f\n", default_ifs: true },
     Config { name: "nullglob", prelude: "shopt -s nullglob\n", default_ifs: true },
     Config { name: "failglob", prelude: "shopt -s failglob\n", default_ifs: true },
@@ -195,6 +195,32 @@ pub fn run(tier: Tier, _replay: Option<Value>) -> ! {
             rep.sample(json!({"x": v, "config": cfg.name, "contexts": ctxs.len() + 1}));
         }
     }
+    // literal (unquoted, non-expanded) text is never subject to field splitting, whatever IFS holds
+    {
+        let probes = [("IFS=a", "banana", "IFS=a; vargs banana \"$x\""), ("IFS=-", "a-b", "IFS=-; vargs a-b \"$x\""), ("IFS=n", "n", "IFS=n; for w in anb; do vargs $w \"$x\"; done")];
+        let mut pc = vec![];
+        for (_, _, script) in &probes {
+            for v in values.iter().take(40) {
+                pc.push(json!({"s": script, "vars": {"x": v}}));
+            }
+        }
+        let po = common::run_scripts(&pc, 30_000);
+        let mut k = 0;
+        for (ifs, lit, _) in &probes {
+            for v in values.iter().take(40) {
+                rep.evaluations += 1;
+                let o = &po[k];
+                k += 1;
+                let want = if *ifs == "IFS=n" { vrec(&["a", "b", v]) } else { vrec(&[lit, v]) };
+                if o.crash.is_some() || o.out != want {
+                    let mut tags = value_tags(v);
+                    tags.push("ctx:literal-word".into());
+                    tags.push(format!("cfg:{ifs}"));
+                    rep.fail(Failure { case: format!("x={:?} context=literal word config={ifs}", v), tags, expected: want.replace('\0', "␀"), observed: o.crash.clone().unwrap_or_else(|| o.out.replace('\0', "␀")), oracle: "identity".into() });
+                }
+            }
+        }
+    }
     // redirection target (legal file names only), fresh empty directory per case
     let mut rcases = vec![];
     let mut rvals = vec![];
@@ -217,7 +243,7 @@ pub fn run(tier: Tier, _replay: Option<Value>) -> ! {
         }
     }
     rep.rule = format!(
-        "all values over the {}-symbol alphabet {:?} with <= {} symbols, injected through the API, in {} contexts under {} configurations (IFS default/empty/:/-; noglob, nullglob, failglob, dotglob, extglob, nocaseglob+globstar), in a directory holding a file for every 1- and 2-symbol value; plus the redirection-target context in an empty directory; non-trivial = value contains a non-alphanumeric character",
+        "all values over the {}-symbol alphabet {:?} with <= {} symbols, injected through the API, in {} contexts under {} configurations (IFS default/empty/:/,; noglob, nullglob, failglob, dotglob, extglob, nocaseglob+globstar), in a directory holding a file for every 1- and 2-symbol value; plus the redirection-target context in an empty directory; non-trivial = value contains a non-alphanumeric character",
         SIGMA.len(),
         SIGMA,
         tier.pick(2, 3),
